@@ -89,7 +89,7 @@ type sent struct {
 }
 
 type stats struct {
-	multiFrame, len16, len64, compressed, partial, prepared, jsonAPI, readFrom, serverFirst bool
+	multiFrame, len16, len64, compressed, partial, prepared, jsonAPI, readFrom, serverFirst, abandoned, partialRead bool
 }
 
 func write(c *websocket.Conn, m Msg, p []byte, pm *websocket.PreparedMessage) error {
@@ -104,6 +104,20 @@ func write(c *websocket.Conn, m Msg, p []byte, pm *websocket.PreparedMessage) er
 	w, err := c.NextWriter(m.Type)
 	if err != nil {
 		return fmt.Errorf("NextWriter: %v", err)
+	}
+	if m.API == "Abandon" {
+		// documented: "NextWriter closes the previous writer if the application has not already done so"
+		if _, err := w.Write(p); err != nil {
+			return fmt.Errorf("Write: %v", err)
+		}
+		w2, err := c.NextWriter(websocket.BinaryMessage)
+		if err != nil {
+			return fmt.Errorf("second NextWriter: %v", err)
+		}
+		if _, err := w2.Write([]byte{0x7e}); err != nil {
+			return err
+		}
+		return w2.Close()
 	}
 	switch m.API {
 	case "NextWriter":
@@ -154,6 +168,22 @@ func read(c *websocket.Conn, m Msg) (int, []byte, error) {
 			return 0, nil, fmt.Errorf("ReadJSON value differs from the value written")
 		}
 		return websocket.TextMessage, m.payload(), nil
+	}
+	if m.Read == "Partial" {
+		mt, r, err := c.NextReader()
+		if err != nil {
+			return 0, nil, fmt.Errorf("NextReader: %v", err)
+		}
+		k := 1
+		if len(m.RdParts) > 0 {
+			k = m.RdParts[0]
+		}
+		buf := make([]byte, k)
+		n, err := io.ReadFull(r, buf)
+		if err != nil && err != io.EOF && err != io.ErrUnexpectedEOF {
+			return mt, buf[:n], fmt.Errorf("partial read: %v", err)
+		}
+		return mt, buf[:n], nil
 	}
 	if m.Read == "NextReader" {
 		mt, r, err := c.NextReader()
@@ -259,8 +289,21 @@ func runCase(c Case) (st stats, err error) {
 		if e != nil {
 			return st, fmt.Errorf("msg %d (%s, %d bytes, from %d): read: %v", i, m.API, len(payload), m.From, e)
 		}
-		if gt != typ || !bytes.Equal(gp, payload) {
+		wantGot := payload
+		if m.Read == "Partial" && len(gp) < len(payload) {
+			wantGot = payload[:len(gp)] // the application stopped reading early; the rest is discarded by the next NextReader
+			st.partialRead = true
+		}
+		if gt != typ || !bytes.Equal(gp, wantGot) {
 			return st, fmt.Errorf("msg %d (%s, from %d): received type %d with %d bytes, sent type %d with %d bytes (first difference at %d)", i, m.API, m.From, gt, len(gp), typ, len(payload), firstDiff(gp, payload))
+		}
+		if m.API == "Abandon" {
+			log[m.From] = append(log[m.From], sent{websocket.BinaryMessage, []byte{0x7e}})
+			gt, gp, e := r.ReadMessage()
+			if e != nil || gt != websocket.BinaryMessage || !bytes.Equal(gp, []byte{0x7e}) {
+				return st, fmt.Errorf("msg %d: message after an abandoned writer: type %d, %d bytes, err %v", i, gt, len(gp), e)
+			}
+			st.abandoned = true
 		}
 		if m.API == "Prepared" && m.Both {
 			if e := r.WritePreparedMessage(pm); e != nil {
@@ -364,7 +407,7 @@ func genCase(t *rapid.T) Case {
 	for i := 0; i < n; i++ {
 		m := Msg{From: rapid.IntRange(0, 1).Draw(t, "from"), Type: rapid.IntRange(1, 2).Draw(t, "type"), Fill: rapid.Uint64().Draw(t, "fill"),
 			Flat: rapid.Bool().Draw(t, "flat"), Level: 100}
-		m.API = rapid.SampledFrom([]string{"WriteMessage", "WriteMessage", "NextWriter", "NextWriter", "WriteString", "ReadFrom", "Prepared", "JSON"}).Draw(t, "api")
+		m.API = rapid.SampledFrom([]string{"WriteMessage", "WriteMessage", "NextWriter", "NextWriter", "WriteString", "ReadFrom", "Prepared", "JSON", "Abandon"}).Draw(t, "api")
 		cfg := c.Client
 		if m.From == 1 {
 			cfg = c.Server
@@ -407,11 +450,11 @@ func genCase(t *rapid.T) Case {
 		if m.API == "ReadFrom" {
 			m.DataEOF = rapid.Bool().Draw(t, "dataeof")
 		}
-		m.Read = rapid.SampledFrom([]string{"ReadMessage", "ReadMessage", "NextReader"}).Draw(t, "read")
+		m.Read = rapid.SampledFrom([]string{"ReadMessage", "ReadMessage", "NextReader", "Partial"}).Draw(t, "read")
 		if m.API == "JSON" && rapid.Bool().Draw(t, "rdjson") {
 			m.Read = "ReadJSON"
 		}
-		if m.Read == "NextReader" {
+		if m.Read == "NextReader" || m.Read == "Partial" {
 			m.RdParts = rapid.SliceOfN(rapid.SampledFrom([]int{1, 3, 64, 125, 126, 4096, 70000}), 1, 4).Draw(t, "rdparts")
 			for j := range m.RdParts {
 				if m.Size/m.RdParts[j] > 5000 {
@@ -438,7 +481,7 @@ var recSession = ev.New(prop, "sessions",
 		"set between messages, pings interleaved, read through ReadMessage / NextReader with drawn read sizes / ReadJSON; oracle: peer receives the same (type,payload) sequence AND each direction's sniffed bytes "+
 		"pass the strict RFC 6455/7692 parser and reassemble/inflate to what was written AND the handshake response carries the RFC accept key/extension parameters; "+
 		"non-trivial = a multi-frame or compressed message, a 16/64-bit length, or partial writes").
-	Require("multi-frame", "len16", "len64", "compressed", "partial-writes", "prepared", "json", "read-from", "negotiated", "not-negotiated", "server-speaks-first")
+	Require("multi-frame", "len16", "len64", "compressed", "partial-writes", "prepared", "json", "read-from", "negotiated", "not-negotiated", "server-speaks-first", "abandoned-writer", "partial-read")
 
 func TestSessions(t *testing.T) {
 	ev.Rapid(t, "sessions", 5000, 100000, func(t *rapid.T) {
@@ -465,6 +508,8 @@ func TestSessions(t *testing.T) {
 		add(st.jsonAPI, "json")
 		add(st.readFrom, "read-from")
 		add(st.serverFirst, "server-speaks-first")
+		add(st.abandoned, "abandoned-writer")
+		add(st.partialRead, "partial-read")
 		add(c.Client.Compression && c.Server.Compression, "negotiated")
 		add(!(c.Client.Compression && c.Server.Compression), "not-negotiated")
 		recSession.Case(nt, ev.Hash(c), cl, func() any { return brief(c) })
